@@ -1644,7 +1644,16 @@ impl StorageEngine {
                             result.truncate(n);
                             result
                         } else {
-                            let n = (-count) as usize;
+                            // With repetition the reply has |count| elements whatever the set holds:
+                            // refuse a count whose reply could not be built (also i64::MIN, which
+                            // has no positive counterpart)
+                            const MAX_REPEATED: u64 = 1 << 20;
+                            if count.unsigned_abs() > MAX_REPEATED {
+                                return Err(FerrousError::Command(CommandError::Generic(
+                                    "value is out of range".to_string()
+                                )));
+                            }
+                            let n = count.unsigned_abs() as usize;
                             let mut result = Vec::with_capacity(n);
                             for _ in 0..n {
                                 if let Some(member) = members.choose(&mut rng) {
